@@ -694,8 +694,20 @@ type ftBlob struct {
 
 var ftBlobs map[string]ftBlob
 
+// ftKept: decoders of the current run that kept the memory they were handed.
+var ftKept []*rawSink
+
 func ftExec(c ftCfg, ops []ftOp, sw []Switch, x *X) {
 	ftBlobs = map[string]ftBlob{}
+	ftKept = nil
+	defer func() {
+		// what a read handed to its decoder is the decoder's: later reads must not have written over it
+		for k, s := range ftKept {
+			if s.Kept != nil && !bytes.Equal(s.Kept, s.Got) && !x.Failed() {
+				x.Fail("fstrace.read_value", len(ops)-1, "read:kept", "the value that read %d of this run handed to its decoder changed afterwards: was %s, is now %s", k, shortHex(s.Got), shortHex(s.Kept))
+			}
+		}
+	}()
 	if c.Key%3 == 1 {
 		// a caller derives a vendor GUID of its own from the text of a well-known one: what it parsed is its own value
 		for _, txt := range []string{"8be4df61-93ca-11d2-aa0d-00e098032b8c", "d719b2cb-3d3a-4596-a3bc-dad00e67656f", "4a67b082-0a4c-41cf-b6c7-440b29bb8c4f"} {
@@ -1030,7 +1042,10 @@ func ftRead(x *X, i int, op ftOp, v efivar.Efivar, p string, obj *efivarfs.Efiva
 	x.Logf("op %d %s var=%s stored=%v/%s", i, kind, op.Var.String(), present, shortHex(raw))
 	req := uint32(v.Attributes)
 	start := len(sfs.Events)
-	sink := &rawSink{}
+	sink := &rawSink{Keep: i%2 == 0}
+	if sink.Keep {
+		ftKept = append(ftKept, sink)
+	}
 	if op.SinkFails {
 		sink.Fail = errors.New("harness decoder refuses")
 	}
